@@ -116,11 +116,6 @@ func (x *Exec) discharge(solver string, timeout time.Duration, knownListed map[s
 	}
 	vars := x.inputVars()
 	var results []ObResult
-	type qkey struct {
-		kind string
-		id   int
-	}
-	cache := map[qkey]*ObResult{}
 	check1 := func(cond *Term) (Result, map[string]uint64, int64, error) {
 		t0 := time.Now()
 		r, m, err := sv.Check(timeout, vars, base, cond)
@@ -157,63 +152,52 @@ func (x *Exec) discharge(solver string, timeout time.Duration, knownListed map[s
 			cond = tb.And(cond, tb.Not(x.modelCube(m)))
 		}
 	}
+	// Obligations with the same (kind, label, position) — the same assertion reached on different
+	// case-split paths — are decided together: the disjunction of their conditions must be unsat
+	// (covers: must be sat).
+	type group struct {
+		ob    *Obligation
+		viol  *Term            // OR_i cond_i ∧ ¬(listed known predicates_i)
+		known map[string]*Term // id -> OR_i cond_i ∧ pred_i,id
+		n     int
+	}
+	var order []string
+	groups := map[string]*group{}
 	for _, ob := range x.Obligations {
-		k := qkey{ob.Kind + "|" + ob.Label + "|" + ob.Pos, ob.Cond.ID}
-		if prev, ok := cache[k]; ok {
-			_ = prev
-			continue
+		key := ob.Kind + "|" + ob.Label + "|" + ob.Pos
+		g := groups[key]
+		if g == nil {
+			g = &group{ob: &Obligation{Kind: ob.Kind, Label: ob.Label, Pos: ob.Pos}, viol: tb.False, known: map[string]*Term{}}
+			groups[key] = g
+			order = append(order, key)
 		}
-		st.Distinct++
-		res := ObResult{Ob: ob}
-		curOb = ob
-		cond := ob.Cond
-		if ob.Kind != "cover" && len(ob.Known) > 0 {
-			// 1. violation outside every listed known finding
-			excl := tb.False
-			var ids []string
+		g.n++
+		excl := tb.False
+		if ob.Kind != "cover" {
 			for id, p := range ob.Known {
 				if knownListed[id] {
 					excl = tb.Or(excl, p)
-					ids = append(ids, id)
+					c := tb.And(ob.Cond, p)
+					if old, ok := g.known[id]; ok {
+						g.known[id] = tb.Or(old, c)
+					} else {
+						g.known[id] = c
+					}
 				}
 			}
-			sort.Strings(ids)
-			r, m, ms, err := check(tb.And(cond, tb.Not(excl)))
-			res.Res, res.Millis = r, ms
-			res.Confirmed, res.Native, res.Spurious = lastConfirmed, lastNative, lastSpurious
-			if err != nil {
-				res.Err = err.Error()
-			}
-			if r == Sat {
-				res.Assign = x.Assignment(m)
-				results = append(results, res)
-				cache[k] = &results[len(results)-1]
-				continue
-			}
-			if r == Unknown {
-				st.Unknown++
-				results = append(results, res)
-				continue
-			}
-			results = append(results, res)
-			// 2. does each listed finding still reproduce?
-			for _, id := range ids {
-				r2, m2, ms2, _ := check(tb.And(cond, ob.Known[id]))
-				kr := ObResult{Ob: ob, Res: r2, Millis: ms2, KnownID: id, Confirmed: lastConfirmed, Native: lastNative, Spurious: lastSpurious}
-				if r2 == Sat {
-					kr.Assign = x.Assignment(m2)
-				}
-				if r2 == Unknown {
-					st.Unknown++
-				}
-				results = append(results, kr)
-			}
-			cache[k] = &results[len(results)-1]
-			continue
 		}
-		r, m, ms, err := check(cond)
+		g.viol = tb.Or(g.viol, tb.And(ob.Cond, tb.Not(excl)))
+	}
+	for _, key := range order {
+		g := groups[key]
+		ob := g.ob
+		ob.Cond = g.viol
+		st.Distinct++
+		res := ObResult{Ob: ob}
+		curOb = ob
+		r, m, ms, err := check(g.viol)
 		if progress != nil {
-			progress(fmt.Sprintf("%s %s %dms %s @ %s", ob.Kind, r, ms, ob.Label, ob.Pos))
+			progress(fmt.Sprintf("%s %s %dms %s @ %s (%d paths)", ob.Kind, r, ms, ob.Label, ob.Pos, g.n))
 		}
 		res.Res, res.Millis = r, ms
 		res.Confirmed, res.Native, res.Spurious = lastConfirmed, lastNative, lastSpurious
@@ -227,9 +211,24 @@ func (x *Exec) discharge(solver string, timeout time.Duration, knownListed map[s
 			st.Unknown++
 		}
 		results = append(results, res)
-		cache[k] = &results[len(results)-1]
-		if progress != nil && ms > 5000 {
-			progress(fmt.Sprintf("slow query %dms: %s %s", ms, ob.Kind, ob.Label))
+		if r != Unsat || ob.Kind == "cover" {
+			continue
+		}
+		var ids []string
+		for id := range g.known {
+			ids = append(ids, id)
+		}
+		sort.Strings(ids)
+		for _, id := range ids {
+			r2, m2, ms2, _ := check(g.known[id])
+			kr := ObResult{Ob: ob, Res: r2, Millis: ms2, KnownID: id, Confirmed: lastConfirmed, Native: lastNative, Spurious: lastSpurious}
+			if r2 == Sat {
+				kr.Assign = x.Assignment(m2)
+			}
+			if r2 == Unknown {
+				st.Unknown++
+			}
+			results = append(results, kr)
 		}
 	}
 	return results, st, nil
